@@ -33,6 +33,22 @@ PosOk == w'.pos = -1 \/ w'.pos = ev.pos
 
 TraceReset == IsEvent("Reset") /\ w' = Init0 /\ res' = "ok"
 TraceNew   == IsEvent("New") /\ New /\ ev.pos = 0
+\* a base that looks like this writer's own output: the appended archive must then be strictly
+\* well formed again; otherwise (data descriptors, file comments, prefix, gaps, forced ZIP64)
+\* the re-emitted directory legitimately differs from the untouched local records
+PlainBase(L) ==
+   /\ WriterWellFormed(L) /\ L.prefix = 0 /\ L.gaps = <<>>
+   /\ \A i \in 1..NEntries(L) : ~FDD(L.cd[i].flags) /\ L.cd[i].klen = 0 /\ L.cd[i].vmade \div 256 = 3
+\* an archive that opens must be accepted for append; the base is judged like any foreign archive
+TraceNewAppend ==
+   /\ IsEvent("NewAppend") /\ ev.r # "panic"
+   /\ (WellFormedLoose(ev.L) => ev.r = "ok")
+   /\ IF ev.r = "ok" /\ ev.L.ok
+      THEN w' = NewAppendF(ev.L, PlainBase(ev.L)) /\ ev.pos = ev.L.cd_start
+      ELSE w' = [Init0 EXCEPT !.dead = TRUE]
+   /\ res' = ev.r
+\* calls the driver could not make because no writer exists (failed new_append)
+TraceNoWriter == IsEvent("NoWriter") /\ UNCHANGED <<w, res>>
 TraceSetComment == IsEvent("SetComment") /\ SetComment([id |-> ev.c.id, len |-> ev.c.len]) /\ ResIs
 
 TraceStartFile ==
@@ -115,9 +131,15 @@ CentralMatches(c, x, f) ==
    /\ c.pos = x.pos /\ c.flags = x.flags /\ c.method = x.method /\ c.time = x.time /\ c.date = x.date
    /\ c.crc = x.crc /\ c.usize = x.usize /\ c.csize = x.csize /\ c.off = x.off
    /\ c.nlen = x.nlen /\ c.name.id = x.name.id /\ c.klen = 0 /\ c.xlen = x.xlen
-   /\ c.eattr_hi = x.eattr_hi /\ c.eattr_lo = 0 /\ c.vmade \div 256 = f.sys
-   /\ Tlv(NoZ64(c.extra)) = f.cx
+   /\ c.eattr_hi = x.eattr_hi /\ c.eattr_lo = x.eattr_lo /\ c.vmade \div 256 = f.sys
+   /\ Tlv(NoZ64(c.extra)) = NoZ64(f.cx)
+\* an entry that was already in the archive when it was opened for append: its local record and
+\* data are where they were, byte for byte
+OldLocalMatches(lf, f) ==
+   /\ lf.ok /\ lf.pos = f.hdr /\ lf.dstart = f.dstart /\ lf.name.id = f.lname /\ lf.method = f.method
+   /\ lf.rawcrc = f.rawsrc
 LocalMatches(lf, x, f) ==
+   IF ~f.fresh THEN OldLocalMatches(lf, f) ELSE
    /\ lf.ok /\ lf.pos = x.pos /\ lf.flags = x.flags /\ lf.method = x.method /\ lf.time = x.time
    /\ lf.date = x.date /\ lf.crc = x.crc /\ lf.usize = x.usize /\ lf.csize = x.csize
    /\ lf.nlen = x.nlen /\ lf.name.id = x.name.id /\ lf.dstart = x.dstart /\ lf.xlen = x.xlen
@@ -137,7 +159,7 @@ LayoutMatches(L, ww) ==
 \*  the observations of whatever bytes are in the sink are not constrained, except: no panic)
 TraceLayout ==
    /\ IsEvent("Layout")
-   /\ w.fin => /\ WriterWellFormed(ev.L)         \* C02: the bytes are a valid ZIP file
+   /\ w.fin => /\ (IF w.strict THEN WriterWellFormed(ev.L) ELSE WellFormedLoose(ev.L))   \* C02
                /\ LayoutMatches(ev.L, w)         \* ... and say what the call history says
    /\ UNCHANGED <<w, res>>
 TraceOpen ==
@@ -154,12 +176,12 @@ TraceEntry ==
         /\ ev.r = "ok" /\ ev.rraw = "ok"
         /\ ev.name.id = f.name.id /\ ev.rawname.id = f.name.id
         /\ ev.method = f.method /\ ev.date = f.dt[1] /\ ev.time = f.dt[2]
-        /\ ev.mode = f.mode /\ ev.usize = f.usize /\ ev.csize = f.csize /\ ev.crc = f.crc
+        /\ ev.mode = UnixModeOf(f.sys, f.mode, f.elo) /\ ev.usize = f.usize /\ ev.csize = f.csize /\ ev.crc = f.crc
         /\ ev.hdr = f.hdr /\ ev.dstart = f.dstart /\ ev.chs = x.pos
         /\ ev.rawlen = f.csize
-        /\ Tlv(NoZ64(ev.extra)) = f.cx /\ ev.xjunk = 0
+        /\ Tlv(NoZ64(ev.extra)) = NoZ64(f.cx) /\ ev.xjunk = 0
         /\ ev.is_dir = (f.name.tail # "")
-        /\ (f.kind = "raw" => ev.rawcrc = f.rawsrc)
+        /\ (f.kind \in {"raw", "old"} => ev.rawcrc = f.rawsrc)
         /\ (Decodable(f) /\ f.kind # "raw" => ev.rc = "ok")
         /\ (ev.rc = "ok" => ev.content.len = f.usize /\ ev.content.crc = f.crc)
         /\ ev.rc # "panic"
@@ -168,6 +190,7 @@ TraceEntry ==
 \* verdict of an external parser (CPython zipfile, Info-ZIP unzip) on the bytes just judged
 TraceReferee == /\ IsEvent("Referee") /\ (w.fin => ev.verdict \in {"ok", "skip"}) /\ UNCHANGED <<w, res>>
 TraceDumped  == IsEvent("Dumped") /\ UNCHANGED <<w, res>>
+TraceLoad    == IsEvent("Load") /\ UNCHANGED <<w, res>>       \* a foreign archive made available as a source
 \* finish() and drop produced identical bytes for the same program (C01)
 TraceCompare == IsEvent("Compare") /\ ev.eq /\ UNCHANGED <<w, res>>
 
@@ -192,10 +215,10 @@ TraceDiag ==
 
 TraceInit == w = Init0 /\ res = "ok" /\ l = 1
 TraceNext ==
-   \/ TraceReset \/ TraceNew \/ TraceSetComment \/ TraceStartFile \/ TraceStartFileExtra
+   \/ TraceReset \/ TraceNew \/ TraceNewAppend \/ TraceNoWriter \/ TraceSetComment \/ TraceStartFile \/ TraceStartFileExtra
    \/ TraceStartFileAligned \/ TraceWrite \/ TraceEndExtra
    \/ TraceEndLocalStartCentral \/ TraceAddDir \/ TraceAddSymlink \/ TraceRawCopy \/ TraceFlush
-   \/ TraceFinish \/ TraceDrop \/ TraceLayout \/ TraceOpen \/ TraceEntry \/ TraceEntryUnfinished \/ TraceCompare \/ TraceReferee \/ TraceDumped
+   \/ TraceFinish \/ TraceDrop \/ TraceLayout \/ TraceOpen \/ TraceEntry \/ TraceEntryUnfinished \/ TraceCompare \/ TraceReferee \/ TraceDumped \/ TraceLoad
 TraceSpec == TraceInit /\ [][TraceNext]_tvars
 TraceSpecDiag == TraceInit /\ [][TraceNext \/ TraceDiag]_tvars
 
